@@ -18,6 +18,7 @@ worker() {
     prop=$(jq -r .property seeded/$sid/meta.json)
     own=$(jq -r .caught_by seeded/$sid/meta.json | grep -o 'C[0-9][0-9]' | sort -u | tr '\n' ' ')
     first=$(echo $own | cut -d' ' -f1); case " $own " in *" $prop "*) first=$prop;; esac
+    if [ -z "$first" ]; then echo "KNOWNMISS $sid: kept as a change no check reports (see its meta.json)"; continue; fi
     rm -rf $S/repo; mkdir -p $S/repo; git -C /repo archive HEAD | tar -x -C $S/repo
     if ! (cd $S/repo && git apply /verif/seeded/$sid/patch.diff 2>/dev/null); then echo "STALE $sid: patch does not apply"; continue; fi
     if [ -n "$SUITE" ]; then (cd $S/repo && go build ./... && go test -vet=off -count=1 ./... >/dev/null 2>&1) || echo "SUITE $sid: repository suite fails with the change"; fi
